@@ -31,6 +31,16 @@ structure GroupOps (K G T J : Type) where
   jmul      : J → J → J
   jneg      : J → J
   jone      : J
+  /-- tangent vector-space operations (`coeffs() += …`, `*= scalar`, `Zero()`, `squaredNorm()`) -/
+  tzero     : T
+  tadd      : T → T → T
+  tsub      : T → T → T
+  tscale    : T → K → T
+  tsqnorm   : T → K
+  tdot      : T → T → K
+  /-- `Jacobian * tangent` -/
+  jmulT     : J → T → T
+  jtr       : J → J
 
 /-- value plus the two optional Jacobians of a binary operation. -/
 structure Out2 (A J : Type) where
